@@ -1,5 +1,5 @@
-(* C05: computed witnesses for every recorded class, and a finite sweep of the model over all
-   constructor spines to depth 2 (the enumeration the quick tier runs against the implementation):
+(* C05: computed witnesses for every recorded class, a finite sweep of the model over all
+   constructor spines to depth 1 (depth 2, the enumeration of the quick tier, is in C05Sweep2.v):
    outside the classes the specification accepts the model's text at every site in both modes,
    and inside the site-specific classes it rejects it. Evaluated by vm_compute. *)
 From Coq Require Import String Ascii.
@@ -57,10 +57,9 @@ Definition exact_at (s : site) (md : mode) (t : rty) : bool :=
 Definition sweep (f : site -> mode -> rty -> bool) (l : list rty) : bool :=
   forallb (fun t => forallb (fun s => forallb (fun md => f s md t) modes_all) sites_all) l.
 
-Lemma sweep_sound_depth2 : sweep sound_at (spines 2) = true.
+Lemma sweep_sound_depth1 : sweep sound_at (spines 1) = true.
 Proof. vm_compute. reflexivity. Qed.
-Lemma sweep_exact_depth2 : sweep exact_at (spines 2) = true.
+Lemma sweep_exact_depth1 : sweep exact_at (spines 1) = true.
 Proof. vm_compute. reflexivity. Qed.
-Lemma sweep_domain_depth2 : forallb dom_b (spines 2) = true /\ List.length (spines 2) = 3763.
+Lemma sweep_domain_depth1 : forallb dom_b (spines 1) = true /\ List.length (spines 1) = 196.
 Proof. vm_compute. split; reflexivity. Qed.
-
